@@ -259,6 +259,27 @@ def embrace_change_dispatch(w: World):
         check(r == FINISHED and sync.is_discarded, "it is set aside as irrelevant")
     if pre_exists == TRASHED and other_is_new_file and not pre_discarded and not moved_out and (tp is not None or not has_path_or_exists):
         check(len(dels) == 0, "a delete does not win over a pending creation on the other side")
+    # what the step reports is what the handler it delegated to reported (FINISHED = done, PUNT = try again later)
+    hd = calls("handle_hash_diff")
+    hp = calls("handle_path_change_or_creation")
+    hm = calls("handle_changed_is_missing")
+    if len(dels) == 1:
+        check(r == dels[0].result, "a propagated deletion's outcome is the step's outcome")
+    if len(hm) == 1:
+        check(r == hm[0].result, "the missing-source handler's outcome is the step's outcome")
+    if len(hd) == 1:
+        check(r == hd[0].result, "the content handler's outcome is the step's outcome")
+    if len(hp) == 1 and hp[0].result == PUNT:
+        check(r == PUNT, "a deferred path change or creation defers the step")
+    pc = calls("_get_parent_conflict")
+    if len(pc) == 1 and pc[0].result is not None:
+        check(r == REQUEUE and len(dels) + len(hm) + len(hd) + len(hp) == 0, "a parent that must go first: requeue, nothing is mirrored now")
+    if len(pc) == 1 and pc[0].result is None and len(dels) + len(hm) + len(hd) + len(hp) == 0:
+        check(r != REQUEUE, "no parent in the way: the step itself never requeues")
+    if len(dels) + len(hm) + len(hd) + len(hp) == 0 and len(calls("check_rename_is_delete_create")) == 0:
+        check(r == FINISHED or (r == REQUEUE and len(calls("_get_parent_conflict")) == 1), "nothing to mirror: finished (or requeued behind a parent)")
+    if len(dels) + len(hm) + len(hd) + len(hp) == 0 and len(calls("check_rename_is_delete_create")) == 1 and calls("check_rename_is_delete_create")[0].result is None:
+        check(r == FINISHED, "nothing changed: finished")
 
 
 @lemma(props=["C07", "C10", "C08"], configs="none", raises=["_BackoffError"],
